@@ -6,7 +6,8 @@
    gzip_packed ids), the pending request ids and registered pings, and the observation:
    status (0 nil, 1 error, 2 panic), the ordered notification events (payload / code only for
    requests that are pending: the engine reveals nothing else), the closed pings and whether
-   salts were stored.  The model's effects are projected to the same observables. *)
+   handleFutureSalts stored salts (its log record; the final content of the store is not used:
+   a later new_session_created runs updateSalt, which drops expired salts).  The model's effects are projected to the same observables. *)
 From Coq Require Import List ZArith Bool.
 From TD Require Import Lib.RunLib Lib.GoSem Lib.GoSlice Model.TlPrim.
 From TD Require Export Model.HandleMsg.
@@ -58,7 +59,7 @@ Definition project (pending : list Z) (e : effect) : list oev :=
 Definition pongs (es : list effect) : list Z :=
   flat_map (fun e => match e with EPong p => [p] | _ => [] end) es.
 Definition stored (es : list effect) : bool :=
-  existsb (fun e => match e with EStoreSalts n => n >? 0 | _ => false end) es.
+  existsb (fun e => match e with EStoreSalts _ => true | _ => false end) es.
 Definition status_code (s : status) : Z :=
   match s with SOk => 0 | SErr _ => 1 | SPanic => 2 end.
 
